@@ -15,6 +15,7 @@ type Clause struct {
 	E     Expr
 	Src   string
 	Pos   string
+	Note  string // the whole text between the brackets (labels of assumptions carry their justification there)
 }
 
 type ModItem struct {
@@ -171,7 +172,13 @@ func parseClause(text, pos string) (Clause, error) {
 	if err != nil {
 		return Clause{}, fmt.Errorf("%s: %v", pos, err)
 	}
-	return Clause{Label: label, Props: props, E: e, Src: rest, Pos: pos}, nil
+	note := ""
+	if t := strings.TrimSpace(text); strings.HasPrefix(t, "[") {
+		if i := strings.Index(t, "]"); i > 0 {
+			note = t[1:i]
+		}
+	}
+	return Clause{Label: label, Props: props, E: e, Src: rest, Pos: pos, Note: note}, nil
 }
 
 func splitTop(s string, sep rune) []string {
